@@ -80,12 +80,12 @@ def run(c):
     vecs = gen(c, 3, False)              # create . s, |s| <= 3, full alphabet, both forms of creation (212k sequences)
     c.cov["exhaustive"] = c.tier == "thorough"
     if c.tier == "thorough":
-        vecs += gen(c, 5, True)          # |s| <= 5 over the small alphabet
+        vecs += gen(c, 4, True)          # |s| <= 4 over the small alphabet
     else:
         # every change: all sequences |s| <= 2 and a seeded quarter of those of length 3 (TLC checked the theorems on all)
         import zlib
         vecs = [v for v in vecs if len(v["calls"]) <= 3 or zlib.crc32(json.dumps(v["calls"], sort_keys=True).encode()) % 4 == c.seed % 4]
-    mism, stats = run_vectors(c, vecs, "main", 1 if c.tier == "thorough" else 2)
+    mism, stats = run_vectors(c, vecs, "main", 3 if c.tier == "thorough" else 2)     # the cache path for every 3rd / 2nd vector
     c.cov["vectors_executed"] += stats["executed"]
     c.cov["harness_stats"] = stats
     c.sample(vecs[len(vecs) // 3])
